@@ -391,7 +391,7 @@ struct WkdRun {
         if (shallow) { k = KeyM(); k.sk.alloc(R.sz(JV_SZ_WK_SK)); memcpy(k.sk.p, pk->sk.p, k.sk.n); k.cap = pk->cap; k.cap_alloc = pk->cap_alloc; env.count("fault:destination_key_is_a_struct_copy_sharing_the_source_slot_array"); }
         std::vector<std::string> sf = trailing_faults(op, 0);
         call_begin((uint64_t) op.arg(0), &sf); R.jv_wk_resamplekey(view, k.sk, sys.params, pre, pk->sk, further, jv_rand_cb);
-        if (shallow) { pk->tainted = true; k.barr = std::move(pk->barr); }   // the array now belongs to the new key (the spent object still points at it; the harness keeps it alive through the new owner)
+        if (shallow) { pk->tainted = true; k.barr = std::move(pk->barr); hopcache.clear(); }   // (the spent key's bytes changed under it: cached marshalled forms are stale)   // the array now belongs to the new key (the spent object still points at it; the harness keeps it alive through the new owner)
         k.rho = Bn::addmod(pk->rho, drawn_scalar("resamplekey"), K().r);
         k.pat = pk->pat; if (!further) for (auto& s : k.pat) if (s.st == ST_FREE) s.st = ST_HIDDEN;
         std::vector<Slot> ppat = pk->pat;
